@@ -12186,6 +12186,14 @@ CK_RV SoftHSM::getRSAPrivateKey(RSAPrivateKey* privateKey, Token* token, OSObjec
 		coefficient = key->getByteStringValue(CKA_COEFFICIENT);
 	}
 
+	// The crypto backend cannot build a usable key without these
+	// (OpenSSL leaves the RSA structure empty and crashes when it is used)
+	if (modulus.size() == 0 || publicExponent.size() == 0 || privateExponent.size() == 0)
+	{
+		ERROR_MSG("The RSA private key lacks the modulus, the public or the private exponent");
+		return CKR_GENERAL_ERROR;
+	}
+
 	privateKey->setN(modulus);
 	privateKey->setE(publicExponent);
 	privateKey->setD(privateExponent);
@@ -12222,6 +12230,12 @@ CK_RV SoftHSM::getRSAPublicKey(RSAPublicKey* publicKey, Token* token, OSObject* 
 	{
 		modulus = key->getByteStringValue(CKA_MODULUS);
 		publicExponent = key->getByteStringValue(CKA_PUBLIC_EXPONENT);
+	}
+
+	if (modulus.size() == 0 || publicExponent.size() == 0)
+	{
+		ERROR_MSG("The RSA public key lacks the modulus or the public exponent");
+		return CKR_GENERAL_ERROR;
 	}
 
 	publicKey->setN(modulus);
